@@ -34,6 +34,17 @@ theorem afterG_fields (r : PState) (l : GLine) (rest : List Nat) :
       { r with tok := after 0 false rest, lastName := some l.n, lastTTL := l.ttl, lastTTLKnown := true } l.ty l.rd
     exact ⟨a, b, c, d, e, f, g⟩
 
+theorem soaDefault_saved (r : PState) (ty : Nat) (rd : Rdata) : (soaDefault r ty rd).saved = r.saved := by
+  unfold soaDefault
+  split
+  · cases rd <;> simp
+  · simp
+
+theorem afterG_saved (r : PState) (l : GLine) (rest : List Nat) : (afterG r l rest).saved = r.saved := by
+  unfold afterG
+  rw [soaDefault_saved]
+  cases l.hdr.hasTTL <;> simp
+
 theorem afterG_eff (r : PState) (l : GLine) (rest : List Nat) : (afterG r l rest).effOrigin = r.effOrigin := by
   obtain ⟨_, _, h3, h4, _⟩ := afterG_fields r l rest
   simp [PState.effOrigin, h3, h4]
@@ -70,7 +81,7 @@ theorem finalStateG_zoneOrigin (ls : List GLine) (r : PState) : (finalStateG ls 
 
 theorem parseTrace_G (ls : List GLine) (r : PState) (co zo : Name) (fuel : Nat) (hf : ls.length < fuel)
     (hco : r.currentOrigin = some co) (hzo : r.zoneOrigin = some zo)
-    (htok : r.tok = after 0 false (glinesText ls)) (d : Option Nat)
+    (htok : r.tok = after 0 false (glinesText ls)) (hsv : r.saved = []) (d : Option Nat)
     (hd : ∀ d', d = some d' → r.defaultTTLKnown = true ∧ r.defaultTTL = d')
     (hok : LinesOK co zo r.relativize r.gfix r.lastName d ls) :
     parseTrace fuel r = traceOfG ls r := by
@@ -80,7 +91,7 @@ theorem parseTrace_G (ls : List GLine) (r : PState) (co zo : Name) (fuel : Nat) 
     | zero => simp at hf
     | succ f =>
       simp only [parseTrace, traceOfG]
-      rw [lineStep_eof r (by simpa [glinesText] using htok)]
+      rw [lineStep_eof r (by simpa [glinesText] using htok) hsv]
   | cons l rest ih =>
     cases fuel with
     | zero => simp at hf
@@ -95,6 +106,7 @@ theorem parseTrace_G (ls : List GLine) (r : PState) (co zo : Name) (fuel : Nat) 
       simp only [parseTrace, traceOfG, hstep]
       obtain ⟨f1, f2, f3, f4, f5, f6, f7⟩ := afterG_fields r l (glinesText rest)
       rw [ih (afterG r l (glinesText rest)) f (by simpa using hf) (f2 ▸ hco) (f3 ▸ hzo) f1
+        (by rw [afterG_saved]; exact hsv)
         (fun d' hd' => by
           obtain ⟨k1, k2⟩ := hd d' hd'
           obtain ⟨g1, g2⟩ := f7 k1
